@@ -54,6 +54,7 @@ type world struct {
 	busy     map[string]bool // ip:port bound (only enforced when enforceBusy)
 	enforce  bool
 	prebusy  map[int]bool // ports that are always busy (exhausted ranges)
+	closeErr bool         // fault "close-error": Close of a socket-like resource returns an error
 
 	gateOn   bool      // the next gated acquisition parks until the driver releases it (one-shot)
 	gateSkip int       // ... after letting this many acquisitions pass
@@ -430,14 +431,21 @@ type fhandle struct {
 }
 
 func (h *fhandle) kill() { h.once.Do(func() { close(h.closed) }) }
+
+var errFakeClose = errors.New("fake socket: close reported an error (the descriptor is released all the same)")
+
 func (h *fhandle) Close() error {
 	h.w.mu.Lock()
 	h.r.Rel++
 	n := h.r.Rel
+	ce := h.w.closeErr
 	h.w.mu.Unlock()
 	h.kill()
 	if n > 1 {
 		return net.ErrClosed
+	}
+	if ce { // fault "close-error": every socket-like resource reports an error from its (first, effective) Close
+		return errFakeClose
 	}
 
 	return nil
